@@ -76,7 +76,8 @@ MCTop(r) ==
 
 MCDisp(r) ==
   /\ pc[r] = "Disp"
-  /\ IF cfg[r].display = "clock" /\ clk[r].site # "display" THEN Tick(r, "display")
+  \* display_interval = None ("always") has no timer; any finite interval reads the clock in should_display()
+  /\ IF cfg[r].display \in {"clock", "never"} /\ clk[r].site # "display" THEN Tick(r, "display")
      ELSE \E d \in BOOLEAN : ShouldDisplay(r, [disp |-> d])
 
 MCBegin(r) ==
@@ -186,6 +187,9 @@ TwinObsCfgs(r) == IF r = "A" THEN {[BaseCfg EXCEPT !.ctl = c, !.pen = p, !.twin 
 TwinHistCfgs(r) == IF r = "A" THEN {[BaseCfg EXCEPT !.ctl = c, !.pen = p, !.algKey = 2, !.twin = "C10", !.limit = 1] : c \in {"DistRatio"}, p \in {"DualNorm", "ObjFilter"}}
                    ELSE {[BaseCfg EXCEPT !.ctl = "DistRatio", !.pen = p, !.twin = "C10", !.limit = 2] : p \in {"DualNorm", "ObjFilter"}}
 
+(* simulation / replay space: one run, every controller, policy, limit, deadline and display mode *)
+SimCfgs(r) == {[BaseCfg EXCEPT !.ctl = c, !.pen = p, !.limit = l, !.deadline = d, !.display = ds, !.collectPath = TRUE] :
+                 c \in Ctls, p \in Pens, l \in {NoLimit, 0, 1, 2, 3, 4}, d \in {NoDeadline} \cup 2..14, ds \in {"never", "always", "clock"}}
 (* quick-tier spaces *)
 QDeadlineCfgs(r) == {[BaseCfg EXCEPT !.ctl = c, !.deadline = d, !.display = ds] :
                       c \in {"Exact", "DistRatio"}, d \in 1..6, ds \in {"never", "clock"}}
